@@ -136,9 +136,15 @@ impl Compiler {
                         ObjectPropertyKey::String(s) => {
                             extracted_keys.push(s.value.cheap_clone());
                         }
-                        // Computed keys can't be statically known, skip them
-                        // (rest will still work but may include some extra props)
-                        ObjectPropertyKey::Computed(_) | ObjectPropertyKey::Number(_) => {}
+                        ObjectPropertyKey::Number(lit) => {
+                            if let crate::ast::LiteralValue::Number(n) = &lit.value {
+                                extracted_keys
+                                    .push(JsString::from(crate::value::number_to_string(*n)));
+                            }
+                        }
+                        // Computed keys are only known at run time: their registers are kept
+                        // and the properties removed from the rest object afterwards
+                        ObjectPropertyKey::Computed(_) => {}
                         ObjectPropertyKey::PrivateIdentifier(_) => {}
                     }
                 }
@@ -149,6 +155,7 @@ impl Compiler {
         }
 
         // Second pass: compile bindings
+        let mut computed_key_regs: Vec<Register> = Vec::new();
         for prop in &obj_pat.properties {
             match prop {
                 ObjectPatternProperty::KeyValue {
@@ -185,7 +192,11 @@ impl Compiler {
                                 obj: value_reg,
                                 key: key_reg,
                             });
-                            self.builder.free_register(key_reg);
+                            if has_rest {
+                                computed_key_regs.push(key_reg);
+                            } else {
+                                self.builder.free_register(key_reg);
+                            }
                         }
                         ObjectPropertyKey::Number(lit) => {
                             let key_reg = self.builder.alloc_register()?;
@@ -230,6 +241,15 @@ impl Compiler {
                             src: value_reg,
                             excluded_keys: excluded_idx,
                         });
+                    }
+
+                    for key_reg in computed_key_regs.drain(..) {
+                        self.builder.emit(Op::DeleteProperty {
+                            dst: key_reg,
+                            obj: rest_obj,
+                            key: key_reg,
+                        });
+                        self.builder.free_register(key_reg);
                     }
 
                     self.compile_pattern_binding(&rest.argument, rest_obj, mutable, is_var)?;
@@ -406,7 +426,12 @@ impl Compiler {
                     ObjectPropertyKey::String(s) => {
                         extracted_keys.push(s.value.cheap_clone());
                     }
-                    ObjectPropertyKey::Computed(_) | ObjectPropertyKey::Number(_) => {}
+                    ObjectPropertyKey::Number(lit) => {
+                        if let crate::ast::LiteralValue::Number(n) = &lit.value {
+                            extracted_keys.push(JsString::from(crate::value::number_to_string(*n)));
+                        }
+                    }
+                    ObjectPropertyKey::Computed(_) => {}
                     ObjectPropertyKey::PrivateIdentifier(_) => {}
                 },
                 ObjectPatternProperty::Rest(_) => {
@@ -416,6 +441,7 @@ impl Compiler {
         }
 
         // Second pass: compile assignments
+        let mut computed_key_regs: Vec<Register> = Vec::new();
         for prop in &obj_pat.properties {
             match prop {
                 ObjectPatternProperty::KeyValue {
@@ -451,7 +477,11 @@ impl Compiler {
                                 obj: value_reg,
                                 key: key_reg,
                             });
-                            self.builder.free_register(key_reg);
+                            if has_rest {
+                                computed_key_regs.push(key_reg);
+                            } else {
+                                self.builder.free_register(key_reg);
+                            }
                         }
                         ObjectPropertyKey::Number(lit) => {
                             let key_reg = self.builder.alloc_register()?;
@@ -491,6 +521,15 @@ impl Compiler {
                             src: value_reg,
                             excluded_keys: excluded_idx,
                         });
+                    }
+
+                    for key_reg in computed_key_regs.drain(..) {
+                        self.builder.emit(Op::DeleteProperty {
+                            dst: key_reg,
+                            obj: rest_obj,
+                            key: key_reg,
+                        });
+                        self.builder.free_register(key_reg);
                     }
 
                     self.compile_pattern_assignment(&rest.argument, rest_obj)?;
